@@ -1,8 +1,23 @@
 /-
 C17 — emitted tables are the canonical LALR(1) tables of the grammar.
-(first layer: the table starts out all-error and cells are only written by key)
+
+For every validated file (`Proofs/Generator`, `Proofs/TableCells`; no per-grammar check involved):
+  * `C17_items_exact`  — the item sets of the generated automaton, lookaheads included, are exactly the least
+    fixed point of the LALR(1) propagation rules over its transition graph (`Machine.Deriv`: the augmented
+    initial item with end-of-input in the start state; `[B → ·γ, b]` for every `b ∈ FIRST(β a)` in the state of
+    `[A → α·Bβ, a]`; the dot moved along transitions, the contributions of all predecessor states united);
+  * `C17_one_state_per_core` — no two states have the same set of cores; transitions are functional;
+  * `C17_cells` — an ACTION cell is non-error iff an item of its state demands it there (reduce `A → α` exactly on
+    the lookaheads of `[A → α·]`, accept on end of input for `[S' → S·]`, shift to the transition's target on the
+    terminal right of a dot), GOTO cells are exactly the nonterminal transitions, everything else is `Err`/`None`.
+What relates `Deriv` to the textbook definition is that the FIRST map is *exact*; it is proved closed under
+the FIRST equations (`Proofs/First`), its soundness and the equivalence with the canonical-LR(1)-merge definition
+are compared with an independent construction on every generated grammar (DESIGN.md §6.3).
 -/
 import KikiVerif.Model.Table
+import KikiVerif.Proofs.Generator
+import KikiVerif.Proofs.TableCells
+import KikiVerif.Proofs.Encode
 
 namespace KikiVerif.C17
 open KikiVerif.Table KikiVerif.Machine KikiVerif.LR
@@ -32,6 +47,53 @@ theorem C17_empty_table (c : Ctx) (m : Machine) (s col : Nat) :
       · cases h; rfl
       · cases h
 
+theorem C17_items_exact (vf : VFile.File) (enc : Encode.Enc) (m : Machine) (fuel : Nat)
+    (he : Encode.encode vf = some enc) (hm : machineOf enc.ctx fuel = some (some m)) :
+    ∃ fm, firstSets enc.ctx fuel = some (some fm) ∧ Valid.firstClosedB enc.ctx.g (toTbl fm) = true ∧
+      ∀ s y, (s < m.states.length ∧ y ∈ m.states.getD s []) ↔ Deriv enc.ctx fm m.start m.transitions s y := by
+  obtain ⟨fm, hfm, mok⟩ := machineOf_ok (Encode.encode_ok he).terms hm
+  exact ⟨fm, hfm, (firstSets_closed hfm).1, items_exact mok⟩
+
+theorem C17_one_state_per_core (vf : VFile.File) (enc : Encode.Enc) (m : Machine) (fuel : Nat)
+    (he : Encode.encode vf = some enc) (hm : machineOf enc.ctx fuel = some (some m)) :
+    (∀ s1 s2, s1 < m.states.length → s2 < m.states.length →
+      SameCores (m.states.getD s1 []) (m.states.getD s2 []) → s1 = s2) ∧
+    (∀ t1 ∈ m.transitions, ∀ t2 ∈ m.transitions, t1.frm = t2.frm → t1.sym = t2.sym → t1.to = t2.to) := by
+  obtain ⟨fm, _, mok⟩ := machineOf_ok (Encode.encode_ok he).terms hm
+  exact ⟨mok.distinct, mok.func⟩
+
+theorem C17_cells (c : Ctx) (m : Machine) (t : Table) (h : machineToTable c m = .ok t) :
+    (∀ s col, col ≤ c.nT → (t.action s col ≠ .err ↔
+      ∃ st it, m.states[s]? = some st ∧ it ∈ st ∧ Table.demand c m s it = some (col, t.action s col))) ∧
+    (∀ s b to, b < c.nN → (t.goto s b = some to ↔ (⟨s, to, .n b⟩ : Transition) ∈ m.transitions)) := by
+  have cells := machineToTable_cells h
+  constructor
+  · intro s col hcol
+    constructor
+    · exact cells.justified s col hcol
+    · rintro ⟨st, it, hst, hit, hd⟩
+      have := cells.demand s st hst it hit _ _ hd
+      intro e
+      -- a demand is never the error action
+      unfold Table.demand at hd
+      rw [e] at hd
+      split at hd
+      · split at hd <;> cases hd
+      · split at hd
+        · cases hd
+        · split at hd
+          · cases hd
+          · split at hd
+            · cases hg : getShiftDest m s _ with
+              | none => rw [hg] at hd; cases hd
+              | some d => rw [hg] at hd; cases hd
+            · cases hd
+  · intro s b to hb
+    exact ⟨cells.gotoJust s b to hb, fun htr => cells.gotoOf _ htr b rfl⟩
+
 end KikiVerif.C17
 
+#print axioms KikiVerif.C17.C17_items_exact
+#print axioms KikiVerif.C17.C17_one_state_per_core
+#print axioms KikiVerif.C17.C17_cells
 #print axioms KikiVerif.C17.C17_empty_table
